@@ -200,7 +200,7 @@ class LoadMixin(AbstractLoaderGenerator, BaseLoadHook):
             elem_type = Any
 
         string = cls.get_string_for_annotation(
-            tp.replace(origin=elem_type, i=i_next, index=None), extras)
+            tp.replace(origin=elem_type, i=i_next, index=None, prefix='v'), extras)
 
         if issubclass(gorg, (set, frozenset)):
             start_char = '{'
@@ -242,7 +242,7 @@ class LoadMixin(AbstractLoaderGenerator, BaseLoadHook):
 
             # Given `Tuple[T, ...]`, we only need the generated string for `T`
             string = cls.get_string_for_annotation(
-                tp.replace(origin=args[0], i=i_next, index=None), extras)
+                tp.replace(origin=args[0], i=i_next, index=None, prefix='v'), extras)
 
             result = f'[{string} for {v_next} in {v}]'
 
